@@ -215,7 +215,7 @@ def run(chk):
         "(directory header run limits incl. the exact 256-entry bound, id count, name length, device number, timestamps) "
         "or a reasoned exception; K13-padding: pad length is a remainder by cfg->devblksize; K1-metablock: 8 KiB limit "
         "and uncompressed fallback. Sortedness, dense inode numbering, index placement and reference resolution are "
-        "not decided.")
+        "not decided. K13-truncate and K11-everyblock (shared with C08) decide two layout-consistency conditions of the block writer.")
     chk.assumptions = ["superblock commit order and bytes_used are decided by the C14 check"]
     prog = load_program("gensquashfs")
     rule_compressor_contract(chk, prog)
